@@ -55,9 +55,9 @@ PROGRAMS = {
     "C04": ["convert_vs_count_observer"],
     "C10": ["convert_vs_count_observer"],
     "C15": ["deprecated_write_vs_reader", "deprecated_write_vs_reader@release"],
-    "C08": ["make_mut_vs_readers", "offset_make_mut_vs_readers", "offset_make_mut_overaligned"],
+    "C08": ["make_mut_vs_readers", "offset_make_mut_vs_readers", "offset_make_mut_overaligned", "unwrap_or_clone_vs_make_mut"],
     "C09": ["racing_try_unwrap_2t", "racing_try_unwrap_3t", "try_unwrap_vs_drop", "unwrap_or_clone_vs_drop",
-            "try_unique_vs_drop", "declining_try_unwrap_vs_gates", "try_unique_vs_drop@release", "try_unwrap_vs_drop@release", "sole_owner_gates"],
+            "try_unique_vs_drop", "declining_try_unwrap_vs_gates", "try_unique_vs_drop@release", "try_unwrap_vs_drop@release", "sole_owner_gates", "unwrap_or_clone_vs_make_mut"],
 }
 # programs of another property that exercise the same gate / hand-over and are worth running too
 ALSO = {
@@ -398,16 +398,20 @@ def simple_pass(ctx, prop, programs, nseeds, what):
     return not bad
 
 
-def run_native(ctx, programs, rounds=20000, timeout_s=60):
+def run_native(ctx, programs, rounds=20000, timeout_s=60, debug_assertions=False):
     """Native stress runs of the litmus programs (release build, real threads, many rounds): a second
     failing-input search for atomicity bugs whose window is a few instructions wide — the programs'
     own checks (exactly one destructor run per value, at most one winner, tag consistency) or a crash
     are the failure.  A build failure is a tool-error, never a finding."""
     programs = list(dict.fromkeys(programs))
     ldir, _ = litmus_dir(ctx.repo)
-    tdir = os.path.join(os.path.dirname(ldir), "native-target-" + repo_tag(ctx.repo))
+    tdir = os.path.join(os.path.dirname(ldir), ("native-dbgassert-target-" if debug_assertions else "native-target-") + repo_tag(ctx.repo))
     env = dict(os.environ)
     env.update({"CARGO_NET_OFFLINE": "true"})
+    if debug_assertions:
+        # optimised code WITH the crate's debug_assert!s (what `cargo test` / a dev build of a client runs): assertions that read
+        # the count a second time, or that hold only sequentially, fire under real concurrency
+        env.update({"CARGO_PROFILE_RELEASE_DEBUG_ASSERTIONS": "true", "CARGO_PROFILE_RELEASE_OVERFLOW_CHECKS": "true"})
     rc, out = _run(["cargo", "build", "--release", "--offline", "--target-dir", tdir] + sum([["--bin", p] for p in programs], []),
                    cwd=ldir, env=env, timeout=900)
     res = []
@@ -423,7 +427,7 @@ def run_native(ctx, programs, rounds=20000, timeout_s=60):
         # fairness under load: natively they are not findings, only safety checks and crashes are
         live = re.search(r"LITMUS-ASSERT-FAILED: [^\n]*(never|polls)", o2) is not None
         st = "ok" if rc2 == 0 else ("timeout" if rc2 in (124, -999) or live else "assert-failed")
-        return dict(program=p, seed=0, status=st, cmd="cd %s && %s   # native stress, real threads" % (ldir, " ".join(cmd)),
+        return dict(program=p, seed=0, status=st, cmd="cd %s && %s   # native stress, real threads%s" % (ldir, " ".join(cmd), " (built with debug assertions: CARGO_PROFILE_RELEASE_DEBUG_ASSERTIONS=true)" if debug_assertions else ""),
                     report=trim_report(o2[-3000:]), wall_s=round(time.time() - t, 2), native=True, rounds=rounds)
     with ThreadPoolExecutor(max_workers=4) as ex:
         res = list(ex.map(one, programs))
